@@ -18,6 +18,7 @@ RTF_FEATURES = {
     "surrogate-pair": "non-BMP character as \\u-10179?\\u-8704? (twin: BMP character \\u8364?)",
     "pict-hex-wrapped": "picture hex data wrapped into 64-character lines (twin: one line)",
     "lone-surrogate-escape": "a \\uN escape holding a trail surrogate without its lead (a cut-off emoji) (twin: the complete pair)",
+    "picture-only-document": "the whole document is one picture, no text and no page break (twin: a paragraph follows the picture)",
     "u-control-words": "control words that begin with the letter u but are not \\uN escapes: \\uc1, \\ul, \\ulnone, \\up6, \\uldb (twin: \\b, \\i0, \\dn6, \\strike)",
     "unicode-with-hex-fallback": "\\u8364\\'80 (unicode escape followed by its \\'hh fallback) (twin: \\u8364?)",
 }
@@ -42,6 +43,17 @@ def build_rtf(seed: int, feature: str | None = None, twin: bool = False):
            "{\\info{\\title %s}{\\author %s}{\\subject %s}{\\keywords %s}{\\doccomm %s}{\\creatim\\yr2024\\mo1\\dy2\\hr3\\min4}}\n"
            % (meta["title"], meta["author"], meta["subject"], meta["keywords"], meta["description"]),
            "{\\header \\pard %s\\par}\n{\\footer \\pard %s\\par}\n" % (exp.out(tk.new("f")), exp.out(tk.new("f")))]
+    if feature == "picture-only-document":
+        wpx, hpx = rng.randint(2, 40), rng.randint(2, 40)
+        data = IMG.make("png", wpx, hpx, rng.randrange(1 << 16))
+        exp.images.append({"sha": sha1(data), "ctype": "image/png", "w": None, "h": None, "unit": 1})
+        pic = "{\\pict\\pngblip\\picw%d\\pich%d\\picwgoal%d\\pichgoal%d %s}" % (wpx, hpx, wpx * 15, hpx * 15, data.hex())
+        out.append(pic if rng.random() < 0.5 else "\\pard " + pic + "\\par\n")
+        if twin:
+            out.append("\\pard " + exp.text(tk.new("b"), 0) + "\\par\n")
+        out.append("}")
+        exp.n_units = 1
+        return "".join(out).encode("ascii"), exp
     n_pages = rng.randint(1, 5)
     if feature in ("blank-page", "image-only-page"):
         n_pages = max(3, n_pages)
